@@ -10,13 +10,18 @@ WT=/tmp/seedchk-$$
 git -C /repo worktree add -q --detach $WT HEAD || exit 2
 cp $D/demo_test.go $WT/zz_demo_test.go
 ( cd $WT && timeout 300 go test -count=1 -run "$RX" . >/tmp/seedchk-a.log 2>&1 ); A=$?
-( cd $WT && git apply $D/patch.diff ) || { echo "patch does not apply"; git -C /repo worktree remove --force $WT; exit 2; }
+( cd $WT && git apply $D/patch.diff ) || { echo "patch does not apply"; cd /verif; rm -rf $SNAP
+git -C /repo worktree remove --force $WT; exit 2; }
 ( cd $WT && mv zz_demo_test.go /tmp/zz_demo_test.go.$$ && timeout 600 go test -count=1 ./... >/tmp/seedchk-s.log 2>&1 ); S=$?
 ( cd $WT && mv /tmp/zz_demo_test.go.$$ zz_demo_test.go && timeout 300 go test -count=1 -run "$RX" . >/tmp/seedchk-b.log 2>&1 ); B=$?
 rm -f $WT/zz_demo_test.go
 echo "demo-without-patch rc=$A (want 0)  suite-with-patch rc=$S (want 0)  demo-with-patch rc=$B (want !=0)"
-cd /verif
+# the checks run from a snapshot of /verif, so that /verif can be edited meanwhile
+SNAP=/tmp/seedchk-verif-$$
+rsync -a --exclude .git --exclude .work --exclude replays --exclude __pycache__ /verif/ $SNAP/
+cd $SNAP
 for p in "$@"; do
   VERIF_REPO=$WT timeout 1800 ./check $p quick > /tmp/seedchk-$p.log 2>&1; echo "check $p rc=$?  $(grep -c VIOLATION /tmp/seedchk-$p.log) violations: $(grep VIOLATION /tmp/seedchk-$p.log | head -2 | cut -c1-250)"
 done
+cd /verif; rm -rf $SNAP
 git -C /repo worktree remove --force $WT
